@@ -386,6 +386,20 @@ func vtDeathFinding(d *vtDeath) (string, string) {
 
 // vtSearch runs a level-synchronous BFS. classify maps a problem to a known-finding id (may be nil).
 func vtSearch(c *runCtx, p *vtPool, s vtSpec) vtStats {
+	// quick tier: no single search may use more than half of the budget that is left (at least 30 s): a search whose state
+	// space a defect inflates must not starve the searches after it (seen with a seeded change in C01). On the unchanged
+	// tree every search ends long before its share; a search that is cut reports it (exhaustive:false, caps_hit).
+	if c.quick() && !s.Deadline.IsZero() {
+		if left := time.Until(s.Deadline); left > 0 {
+			share := left / 2
+			if share < 30*time.Second {
+				share = 30 * time.Second
+			}
+			if d := time.Now().Add(share); d.Before(s.Deadline) {
+				s.Deadline = d
+			}
+		}
+	}
 	cfgRaw, _ := json.Marshal(s.Cfg)
 	st := vtStats{Exhaustive: true}
 	seen := map[string][][]int{}
